@@ -287,7 +287,7 @@ func llmnrScenarios(c *vf.Ctx, B int) []*scenario {
 		}
 	}
 	// client: two concurrent queries against a scripted responder
-	for _, mode := range []string{"in-order", "reversed", "only-first", "unknown-id-first", "duplicate"} {
+	for _, mode := range []string{"in-order", "reversed", "only-first", "unknown-id-first", "duplicate", "triplicate"} {
 		mode := mode
 		out = append(out, &scenario{name: "llmnr-client-2queries/" + mode, keys: []string{"query-returns-response-with-own-id", "answered-query-does-not-time-out", "unanswered-query-times-out", "readloop-exits-after-close"}, bound: B, body: func(x *exec) {
 			clientScenario(x, mode, false)
@@ -392,6 +392,16 @@ func clientScenario(x *exec, mode string, closeRace bool) {
 			for _, q := range got {
 				reply(q, q.m.ID)
 				reply(q, q.m.ID)
+				answered[q.m.Questions[0].Name] = true
+			}
+		case "triplicate":
+			// several responders answer one multicast query: more responses than the query will ever read
+			for i, q := range got {
+				reply(q, q.m.ID)
+				if i == 0 {
+					reply(q, q.m.ID)
+					reply(q, q.m.ID)
+				}
 				answered[q.m.Questions[0].Name] = true
 			}
 		}
